@@ -77,6 +77,7 @@ def run(e: Engine, rep: Report):
     r37(e, rep)
     from . import storeback
     storeback.run(e, rep, 'R3.8')
+    r39(e, rep, 'R3.9')
     rep.floor('R3.1', 2, 'attempt spawn sites')
     rep.floor('R3.7', 2, 'release sites of the in-flight mark')
 
@@ -407,9 +408,18 @@ def r34(e: Engine, rep: Report, rule: str):
                     raw = n
                 if n.func.attr in MERGE_HELPERS:
                     helper = True
+        # today the queue passes a set and `list + <set>` raises before
+        # anything is stored (C01-R1.5): the wrong index space is a latent
+        # defect as long as the argument itself is an operand of `+`; a
+        # merge that accepts the set makes it live
+        masked = isinstance(raw, ast.BinOp) and isinstance(raw.op, ast.Add) \
+            and any(isinstance(x, ast.Name) and x.id == pname
+                    for x in (raw.left, raw.right))
         if raw is not None and not helper:
             rep.bad(rule, where,
-                    'stored marks merged with the new indexes untranslated',
+                    'stored marks merged with the new indexes untranslated'
+                    + ('' if masked else ', by a merge that accepts what '
+                       'the queue passes'),
                     'get() removes the stored marks from the ORIGINAL '
                     'recipient list, but the queue computes the new indexes '
                     'on the REDUCED list that get() returned; merging the '
@@ -714,3 +724,90 @@ def r37(e: Engine, rep: Report):
     if total < 2:
         rep.error('anchor vanished: active_ids.discard sites (%d < 2)'
                   % total)
+
+
+# -------------------------------------------------------------------- R3.9
+LIST_MUTATORS = {'append', 'extend', 'insert', 'remove', 'pop', 'clear',
+                 'sort', 'reverse', 'update', 'add', 'discard', 'setdefault',
+                 'popitem'}
+
+
+def r39(e: Engine, rep: Report, rule: str):
+    """The envelope an attempt works on came from store.get(): for a backend
+    that keeps objects (DictStorage with plain dicts) it IS the stored
+    record, whose recipient list the settled positions refer to.  The queue
+    therefore only reads it and derives copies (envelope.copy(...)); a write
+    through one of its own parameters changes the stored message behind the
+    backend's back (settled positions then point at other recipients)."""
+    rep.rule(rule, 'no method of Queue writes through one of its parameters '
+             '(attribute assignment, deletion, in-place list / dict '
+             'mutation): the envelope handed down from store.get() is only '
+             'read and copied')
+    c = common.merged_class(e, QUEUE)
+    nm = 0
+    for mname, m in sorted(c.methods.items()):
+        params = [p for p in m.params if p not in ('self', 'cls')]
+        if not params:
+            continue
+        nm += 1
+        rep.functions.add(m.qname)
+        # parameters and locals that are plain aliases of them
+        alias = set(params)
+        changed = True
+        while changed:
+            changed = False
+            for a in walk_own(m.node):
+                if isinstance(a, ast.Assign) and len(a.targets) == 1 and \
+                        isinstance(a.targets[0], ast.Name) and \
+                        isinstance(a.value, ast.Name) and \
+                        a.value.id in alias and \
+                        a.targets[0].id not in alias:
+                    alias.add(a.targets[0].id)
+                    changed = True
+        # a parameter that is re-bound is no longer what was handed in
+        rebound = {x.id for x in walk_own(m.node) if isinstance(x, ast.Name)
+                   and isinstance(x.ctx, ast.Store) and x.id in params}
+
+        def base(x):
+            while isinstance(x, (ast.Attribute, ast.Subscript)):
+                x = x.value
+            return x.id if isinstance(x, ast.Name) else None
+        for x in walk_own(m.node):
+            tg = []
+            what = None
+            if isinstance(x, ast.Assign):
+                tg = x.targets
+            elif isinstance(x, (ast.AugAssign, ast.AnnAssign)):
+                tg = [x.target]
+            elif isinstance(x, ast.Delete):
+                tg = x.targets
+            for t in tg:
+                for el in (t.elts if isinstance(t, (ast.Tuple, ast.List))
+                           else [t]):
+                    if isinstance(el, (ast.Attribute, ast.Subscript)) and \
+                            base(el) in alias - rebound:
+                        what = ast.unparse(el)
+            if isinstance(x, ast.Call) and \
+                    isinstance(x.func, ast.Attribute) and \
+                    x.func.attr in LIST_MUTATORS and \
+                    isinstance(x.func.value, (ast.Attribute,
+                                              ast.Subscript)) and \
+                    base(x.func.value) in alias - rebound:
+                what = ast.unparse(x.func)
+            if what is None:
+                continue
+            rep.evaluations += 1
+            rep.bad(rule, m.qname, 'write through a parameter: `%s`' % what,
+                    '%s changes the object it was handed (`%s`): for the '
+                    'envelope of an attempt that is the record a keeping '
+                    'backend stores, so the recipient list the settled '
+                    'positions refer to changes under the backend (a '
+                    'recipient is dropped unattempted, or a settled one is '
+                    'attempted again)' % (mname, what), loc=m.loc(x))
+    rep.evaluations += 1
+    if nm < 10:
+        rep.error('anchor vanished: methods of Queue with parameters '
+                  '(%d < 10)' % nm)
+    else:
+        rep.ok(rule, QUEUE, 'methods of Queue only read what they are '
+               'handed', reason='%d methods with parameters looked at' % nm)
